@@ -8,9 +8,16 @@
 // Properties/C01Tie.lean proves that the generic interpreter of such graphs, applied to THIS graph,
 // is the hand-written step function of Model/GSync.lean for all states.
 //
+// The graph is kept in a canonical form so that behaviour-preserving rewrites give the SAME graph:
+// locals are numbered in binding order (names do not matter, fields and the sentinel are found by
+// their types / by what the constructor stores), `if !c A else B` is stored as `if c B else A`, a
+// tagless switch is its if-chain, `x := <pure integer expression>` makes x stand for the expression,
+// a parameterless, resultless helper method of the same type called as a statement is inlined.
+//
 // Everything the graph language cannot say makes the extractor FAIL (exit 1; `check` reports a broken
-// tie): another field in the struct, another method on a field, a helper method, a goroutine, a
-// select, arithmetic on the counter value, a reassigned channel variable, ...
+// tie): another field in the struct, another method on a field, any other helper call, a goroutine, a
+// select, arithmetic on the counter value, a reassigned channel variable, another function of the
+// package that touches the fields, ...
 package main
 
 import (
@@ -83,11 +90,15 @@ type gsMethod struct {
 	aliased  map[int]bool
 	deferred bool // a `defer wg.mu.Unlock()` has been executed: every return unlocks first
 	loops    []*gsLoop
+	inl      *gsNode  // inside an inlined helper: where its `return` goes
+	depth    int
 }
 
 type gsFileInfo struct {
 	mu, count, ptr string // field names
 	sentinel       string // the package-level closed channel
+	funcs          map[string]*ast.FuncDecl
+	inlined        map[string]bool // helper methods inlined into Add / Wait / Count
 }
 
 func (m *gsMethod) push() { m.scopes = append(m.scopes, map[string]*gsBinding{}) }
@@ -458,7 +469,15 @@ func (m *gsMethod) branchOn(e ast.Expr, hole **gsNode, T, F *gsNode) {
 	saved := gsTmp
 	gsTmp = map[ast.Expr]*gsBinding{}
 	hole = m.hoist(e, hole, gsTmp)
-	n := &gsNode{kind: "branch", a: m.cond(e), t: T, e: F, src: src(e)}
+	c := m.cond(e)
+	// `if !c A else B` is `if c B else A`: conditions are stored without an outer negation
+	text := src(e)
+	for strings.HasPrefix(c, "(.not ") && strings.HasSuffix(c, ")") {
+		c = c[len("(.not ") : len(c)-1]
+		T, F = F, T
+		text = "NOT (" + text + ")"
+	}
+	n := &gsNode{kind: "branch", a: c, t: T, e: F, src: text}
 	gsTmp = saved
 	*hole = n
 }
@@ -582,6 +601,11 @@ func (m *gsMethod) stmt(s ast.Stmt, hole **gsNode, top bool) **gsNode {
 				return m.emitOp(e, idx, hole)
 			}
 		}
+		if c, ok := e.(*ast.CallExpr); ok {
+			if h := m.helperCall(c); h != nil {
+				return m.inline(h, s, hole)
+			}
+		}
 		gsFail(s, "statement `%s` is outside the translated fragment (a call the model has no operation for)", src(s))
 	case *ast.DeferStmt:
 		if f, meth, args, ok := m.fieldCall(x.Call); ok && f == "mu" && meth == "Unlock" && len(args) == 0 && top && !m.deferred {
@@ -703,6 +727,13 @@ func (m *gsMethod) stmt(s ast.Stmt, hole **gsNode, top bool) **gsNode {
 		}
 		gsFail(s, "`%s` is outside the translated fragment", src(s))
 	case *ast.ReturnStmt:
+		if m.inl != nil {
+			if len(x.Results) != 0 {
+				gsFail(s, "`%s`: an inlined helper returns a value", src(s))
+			}
+			*hole = m.inl
+			return nil
+		}
 		if len(x.Results) != 1 {
 			gsFail(s, "`%s`: exactly one result is expected", src(s))
 		}
@@ -726,6 +757,51 @@ func (m *gsMethod) stmt(s ast.Stmt, hole **gsNode, top bool) **gsNode {
 	}
 	gsFail(s, "statement `%s` is outside the translated fragment", src(s))
 	return nil
+}
+
+// helperCall recognises `recv.h()` for a plain helper method h of the same type: no parameters, no results.
+func (m *gsMethod) helperCall(c *ast.CallExpr) *ast.FuncDecl {
+	sel, ok := c.Fun.(*ast.SelectorExpr)
+	if !ok || len(c.Args) != 0 {
+		return nil
+	}
+	id, ok := sel.X.(*ast.Ident)
+	if !ok || id.Name != m.recv || m.lookup(id.Name) != nil {
+		return nil
+	}
+	fd := m.g.funcs[gsType+"."+sel.Sel.Name]
+	if fd == nil || fd.Type.Params.NumFields() != 0 || fd.Type.Results.NumFields() != 0 || fd.Type.TypeParams != nil {
+		return nil
+	}
+	switch sel.Sel.Name {
+	case "Add", "Wait", "Count", "Inc", "Dec":
+		return nil
+	}
+	if _, ptr := fd.Recv.List[0].Type.(*ast.StarExpr); !ptr || gsRecvName(fd) == "" || gsRecvName(fd) == "_" {
+		return nil
+	}
+	return fd
+}
+
+// inline translates the body of a helper in place of its call: own scope, own receiver name, its
+// `return` continues after the call.
+func (m *gsMethod) inline(fd *ast.FuncDecl, call ast.Stmt, hole **gsNode) **gsNode {
+	if m.depth >= 4 {
+		gsFail(call, "`%s`: helper calls nested too deeply (recursion?)", src(call))
+	}
+	m.g.inlined[gsType+"."+fd.Name.Name] = true
+	gsRefuseBreakInSwitch(fd.Body)
+	savedScopes, savedRecv, savedLoops, savedInl := m.scopes, m.recv, m.loops, m.inl
+	after := &gsNode{kind: "join"}
+	m.scopes, m.recv, m.loops, m.inl = []map[string]*gsBinding{{}}, gsRecvName(fd), nil, after
+	m.depth++
+	h := m.stmts(fd.Body.List, hole, false)
+	m.depth--
+	m.scopes, m.recv, m.loops, m.inl = savedScopes, savedRecv, savedLoops, savedInl
+	if h != nil {
+		*h = after
+	}
+	return &after.nx
 }
 
 func gsNoFallthrough(c *ast.CaseClause) {
@@ -906,21 +982,8 @@ func runGSync(repo, out string) {
 		gsFail(nil, "constructor New%s not found", gsType)
 	}
 	g.sentinel = gsCtor(g, ctor)
-	gsSentinelInit(g, pkgVars, funcs["init"], file)
-
-	// every other function of the file keeps its hands off the state
-	modelled := map[string]bool{gsType + ".Add": true, gsType + ".Wait": true, gsType + ".Count": true, gsType + ".Inc": true,
-		gsType + ".Dec": true, "New" + gsType: true, "init": true}
-	keys := make([]string, 0, len(funcs))
-	for k := range funcs {
-		keys = append(keys, k)
-	}
-	sort.Strings(keys)
-	for _, k := range keys {
-		if !modelled[k] {
-			gsHandsOff(g, funcs[k], k)
-		}
-	}
+	g.funcs, g.inlined = funcs, map[string]bool{}
+	sentinelHelper := gsSentinelInit(g, pkgVars, funcs["init"], file)
 	// ... and so does every other file of the package
 	dir := filepath.Dir(path)
 	ents, err := os.ReadDir(dir)
@@ -976,6 +1039,23 @@ func runGSync(repo, out string) {
 	countEntry, countM := g.method(funcs[gsType+".Count"], "int")
 	incD := gsAddCall(funcs[gsType+".Inc"])
 	decD := gsAddCall(funcs[gsType+".Dec"])
+
+	// every other function of the file keeps its hands off the state (and off the inlined helpers)
+	modelled := map[string]bool{gsType + ".Add": true, gsType + ".Wait": true, gsType + ".Count": true, gsType + ".Inc": true,
+		gsType + ".Dec": true, "New" + gsType: true, "init": true}
+	if sentinelHelper != "" {
+		modelled[sentinelHelper] = true
+	}
+	keys := make([]string, 0, len(funcs))
+	for k := range funcs {
+		keys = append(keys, k)
+	}
+	sort.Strings(keys)
+	for _, k := range keys {
+		if !modelled[k] && !g.inlined[k] {
+			gsHandsOff(g, funcs[k], k)
+		}
+	}
 
 	// number the nodes: depth first from the three entries, successor before branches, then before else
 	var order []*gsNode
@@ -1091,25 +1171,71 @@ func gsCtor(g *gsFileInfo, fd *ast.FuncDecl) string {
 	return sentinel
 }
 
-// gsSentinelInit: `var S chan struct{}` made and closed in init(), assigned nowhere else.
-func gsSentinelInit(g *gsFileInfo, vars []*ast.ValueSpec, initFn *ast.FuncDecl, file *ast.File) {
+// gsSentinelInit: the sentinel is a package-level channel that is made and closed before any group
+// exists and assigned nowhere else.  Accepted: `var S chan struct{}` + `func init() { S = make(chan struct{});
+// close(S) }`, or `var S = f()` / `var S = func() chan struct{} {...}()` where the function body is
+// `c := make(chan struct{}); close(c); return c`.  Returns the name of the helper function f, if any.
+func gsSentinelInit(g *gsFileInfo, vars []*ast.ValueSpec, initFn *ast.FuncDecl, file *ast.File) string {
+	helper := ""
+	madeClosed := func(body *ast.BlockStmt) bool {
+		if body == nil || len(body.List) != 3 {
+			return false
+		}
+		a, ok := body.List[0].(*ast.AssignStmt)
+		if !ok || a.Tok != token.DEFINE || len(a.Lhs) != 1 || len(a.Rhs) != 1 || src(a.Rhs[0]) != "make(chan struct{})" {
+			return false
+		}
+		c := src(a.Lhs[0])
+		return src(body.List[1]) == "close("+c+")" && src(body.List[2]) == "return "+c
+	}
 	found := false
 	for _, v := range vars {
 		for _, n := range v.Names {
-			if n.Name == g.sentinel {
-				if len(v.Names) != 1 || len(v.Values) != 0 || v.Type == nil || src(v.Type) != "chan struct{}" {
-					gsFail(v, "`%s` is expected to be declared as `var %s chan struct{}` and made in init()", g.sentinel, g.sentinel)
+			if n.Name != g.sentinel {
+				continue
+			}
+			found = true
+			if len(v.Names) != 1 {
+				gsFail(v, "`%s` is declared together with other variables", g.sentinel)
+			}
+			if len(v.Values) == 0 {
+				if v.Type == nil || src(v.Type) != "chan struct{}" {
+					gsFail(v, "`%s` is expected to be a `chan struct{}`", g.sentinel)
 				}
-				found = true
+				if initFn == nil || len(initFn.Body.List) != 2 ||
+					src(initFn.Body.List[0]) != g.sentinel+" = make(chan struct{})" || src(initFn.Body.List[1]) != "close("+g.sentinel+")" {
+					gsFail(v, "init() is expected to be `%s = make(chan struct{}); close(%s)` (the sentinel is closed before any group exists)", g.sentinel, g.sentinel)
+				}
+				continue
+			}
+			if v.Type != nil && src(v.Type) != "chan struct{}" {
+				gsFail(v, "`%s` is expected to be a `chan struct{}`", g.sentinel)
+			}
+			call, ok := v.Values[0].(*ast.CallExpr)
+			if !ok || len(call.Args) != 0 {
+				gsFail(v, "initialiser of `%s` is outside the recognised forms", g.sentinel)
+			}
+			switch f := call.Fun.(type) {
+			case *ast.FuncLit:
+				if f.Type.Params.NumFields() != 0 || f.Type.Results.NumFields() != 1 || src(f.Type.Results.List[0].Type) != "chan struct{}" || !madeClosed(f.Body) {
+					gsFail(v, "initialiser of `%s` is not `make; close; return`", g.sentinel)
+				}
+			case *ast.Ident:
+				fd := g.funcs[f.Name]
+				if fd == nil || fd.Type.Params.NumFields() != 0 || fd.Type.Results.NumFields() != 1 || src(fd.Type.Results.List[0].Type) != "chan struct{}" || !madeClosed(fd.Body) {
+					gsFail(v, "initialiser `%s()` of `%s` is not a function of this file that is `make; close; return`", f.Name, g.sentinel)
+				}
+				helper = f.Name
+			default:
+				gsFail(v, "initialiser of `%s` is outside the recognised forms", g.sentinel)
+			}
+			if initFn != nil {
+				gsHandsOff(g, initFn, "init")
 			}
 		}
 	}
 	if !found {
 		gsFail(nil, "the channel `%s` installed by the constructor is not a package-level variable of this file", g.sentinel)
-	}
-	if initFn == nil || len(initFn.Body.List) != 2 ||
-		src(initFn.Body.List[0]) != g.sentinel+" = make(chan struct{})" || src(initFn.Body.List[1]) != "close("+g.sentinel+")" {
-		gsFail(initFn, "init() is expected to be `%s = make(chan struct{}); close(%s)` (the sentinel is closed before any group exists)", g.sentinel, g.sentinel)
 	}
 	for _, d := range file.Decls {
 		fd, ok := d.(*ast.FuncDecl)
@@ -1127,6 +1253,7 @@ func gsSentinelInit(g *gsFileInfo, vars []*ast.ValueSpec, initFn *ast.FuncDecl, 
 			return true
 		})
 	}
+	return helper
 }
 
 // gsHandsOff: a function outside the modelled program may call the modelled methods but not touch the fields or the sentinel.
@@ -1135,7 +1262,10 @@ func gsHandsOff(g *gsFileInfo, fd *ast.FuncDecl, name string) {
 		switch x := n.(type) {
 		case *ast.SelectorExpr:
 			if x.Sel.Name == g.mu || x.Sel.Name == g.count || x.Sel.Name == g.ptr {
-				gsFail(x, "%s uses `%s`: it touches the group's state but is not part of the modelled program (Add, Wait, Count, Inc, Dec)", name, src(x))
+				gsFail(x, "%s uses `%s`: it touches the group's state but is not part of the modelled program (Add, Wait, Count, Inc, Dec and the parameterless helpers they call as statements)", name, src(x))
+			}
+			if g.inlined[gsType+"."+x.Sel.Name] {
+				gsFail(x, "%s calls `%s`, a helper of Add / Wait / Count, from outside the modelled program", name, src(x))
 			}
 		case *ast.Ident:
 			if x.Name == g.sentinel {
